@@ -54,7 +54,7 @@ def resolve(case, name, default):
     return default
 
 
-def gen_case(rng, zero_override=False):
+def gen_case(rng, zero_override=False, int_later_fill=False):
     naxes = rng.choice([1, 2, 2, 3])
     axes = ["X", "Y", "Z"][:naxes]
     N = {a: rng.randint(3, 4) for a in axes}   # widths (<= 2) never exceed a length (>= 2)
@@ -138,7 +138,7 @@ def gen_case(rng, zero_override=False):
     if not pbv:
         # padding after the function: the (trimmed) outputs are what is padded
         bwv = None if bwv is None else [[d, [min(lo, 1), min(hi, 1)]] for d, (lo, hi) in bwv]
-    values = {"bw": bwv, "boundary": G.kwval(rng, axes, G.WORDS), "fill": G.kwval(rng, axes, [0, 5, -1, 9]),
+    values = {"bw": bwv, "boundary": G.kwval(rng, axes, G.WORDS), "fill": G.kwval(rng, axes, [0, 5, -1, 9, 0.5]),
               "pad_before": pbv}
     alt = {"bw": None if bwv is None else [[d, [rng.randint(0, 1), rng.randint(0, 1)]] for d, _ in bwv],
            "boundary": G.kwval(rng, axes, G.WORDS), "fill": G.kwval(rng, axes, [1, 4, -3]),
@@ -154,7 +154,19 @@ def gen_case(rng, zero_override=False):
         call = {"fill": rng.choice([0, 0.0, {a: 0 for a in axes}])}
         if not pbv:
             bound["pad_before"] = False
-    for o in (OPTS if not (zero_override and shared) else []):
+    forced_dtype = None
+    if int_later_fill and len(shared) >= 2:
+        # a fixed pattern: integer data padded along two axes, the first by extension (or an integral fill
+        # value), a later one with a fractional fill value: every axis' halo must survive
+        mode = rng.choice(["apply", "grid", "decorator"])
+        bwv = [[d, [1, 2]] for d in shared]
+        values["bw"] = bwv
+        real = [bind[d] for d in shared]
+        call = {"bw": bwv, "boundary": {real[0]: rng.choice(["extend", "fill"]), **{a: "fill" for a in real[1:]}},
+                "fill": {real[0]: 3, **{a: 0.5 for a in real[1:]}}}
+        bound = {}
+        forced_dtype = "int64"
+    for o in (OPTS if not ((zero_override and shared) or forced_dtype) else []):
         r = rng.random()
         if mode in ("apply", "grid"):
             if r < 0.75:
@@ -170,6 +182,8 @@ def gen_case(rng, zero_override=False):
     hint_names = rng.sample(["temp", "salt", "w", "v", "u", "hi", "lo", "b", "a", "_x", "Zeta"], len(in_sig))
     case = {"ctor": ctor, "sig": sig, "axis": axis, "args": args, "mode": mode, "bound": bound, "call": call,
             "hint_names": hint_names,
+            # how the numbers are held; whether the option objects have been used before, on another grid
+            "dtype": forced_dtype or rng.choice(["float64", "float64", "int64"]), "used_before": rng.random() < 0.3,
             "axis_str": rng.random() < 0.3,
             "in_sig": in_sig, "out_sig": out_sig}
     # the plan that undoes the padding
@@ -244,7 +258,7 @@ def generate(rng, tier):
     n = 320 if tier == "quick" else 5000
     cases = []
     for i in range(n):
-        c = gen_case(rng, zero_override=(i % 20 == 0))
+        c = gen_case(rng, zero_override=(i % 20 == 0), int_later_fill=(i % 20 in (10, 11, 12)))
         if i % 6 == 5:
             c = malform(rng, c)
         cases.append(c)
@@ -260,7 +274,8 @@ def run_impl(case):
     das = []
     for a in case["args"]:
         shape = [l for _, l in a["dims"]]
-        das.append(xr.DataArray(np.array(a["vals"], dtype=float).reshape(shape), dims=[d for d, _ in a["dims"]]))
+        das.append(xr.DataArray(np.array(a["vals"], dtype=case.get("dtype", "float64")).reshape(shape),
+                                dims=[d for d, _ in a["dims"]]))
     recv, ret = [], []
     plan = case["plan"]
     k0 = len(case["in_sig"][0])
@@ -312,6 +327,20 @@ def run_impl(case):
     axis = [a[0] if case.get("axis_str") and len(a) == 1 else tuple(a) for a in case["axis"]]
     if case.get("axis_str") and len(axis) == 1 and isinstance(axis[0], str) and case.get("axis_whole", True):
         axis = axis[0]          # the whole argument as one plain string: it names that one axis
+    call_kw, bound_kw = kws(case["call"]), kws(case["bound"])
+    if case.get("used_before"):
+        # the same option objects (mappings) have served a call on ANOTHER grid, whose defaults differ
+        try:
+            c2 = dict(case["ctor"], boundary="extend", fill=9, periodic=False)
+            _, g2, _ = G.build_grid(c2, with_coords=True)
+            if case["mode"] in ("apply", "grid"):
+                apply_as_grid_ufunc(func, *das, axis=axis, grid=g2, signature=case["sig"], **call_kw)
+            else:
+                as_grid_ufunc(signature=case["sig"], **bound_kw)(func)(g2, *das, axis=axis, **call_kw)
+        except Exception:
+            pass
+        del recv[:], ret[:]
+    kws = lambda o: call_kw if o is case["call"] else bound_kw
     try:
         mode = case["mode"]
         if mode == "apply":
